@@ -17,6 +17,7 @@ PG = "pdfminer.pdfpage.PDFPage"
 
 
 def run(model: Model, rep: Report) -> None:
+    _selection_breaks(model, rep)
     rep.explanation = (
         "C04: decides the structural part of page-tree handling: the inheritable-attribute set (Table 30) and the nearest-ancestor merge, "
         "document-order traversal with a visited-set guard dominating the recursion, that the page limit is tested on every path through the "
@@ -292,3 +293,18 @@ def _page_ctm(model: Model, rep: Report) -> None:
     src = unparse(bp.node).replace(" ", "")
     okp = "=apply_matrix_rect(ctm,page.mediabox)" in src and "(0,0,abs(x0-x1),abs(y0-y1))" in src and "LTPage(self.pageno,mediabox)" in src
     r4.check(okp, site(bp), bp.qualname, "the page box is (0, 0, |dx|, |dy|) of the transformed MediaBox", why="page box computation changed")
+
+
+def _selection_breaks(model: Model, rep: Report) -> None:
+    r = rep.rule("C04-R7", "GUARD", "page selection: the walk over the pages ends early only on the page limit (maxpages) - never on an assumption about the order in which the requested page numbers are given", 2)
+    from ..util import guard_conjuncts
+
+    f = model.func("pdfminer.pdfpage.PDFPage.get_pages")
+    brk = [n for n in walk_no_nested(f.node) if isinstance(n, (ast.Break, ast.Return))]
+    if not brk:
+        raise AnchorMissing("get_pages: no break")
+    for b in brk:
+        g = guard_conjuncts(f, b)
+        lim = {x for x in g if "maxpages" in x}
+        other = sorted(x for x in g - lim if x not in ("pagenos", "pagenonotinpagenos"))
+        r.check(bool(lim) and not other, site(f, b), f.qualname, f"`{unparse(b)}` is taken under the page limit only ({sorted(g)})", why=f"conditions {other or sorted(g)}: the loop can stop before every requested page was produced (page numbers may come in any order, or as a set)")
